@@ -242,3 +242,18 @@ claim("C13", "other",
       "identity prefix (representation invariant).",
       "symbolic execution of rendering on shadow units + z3 regex membership/inclusion + exhaustive family on the real parser",
       "DESIGN.md 4/C13", "parsertables")
+
+claim("C15", "other",
+      "The library's side of the transports' contracts is decided symbolically on the real code: on shadow "
+      "dimensions, prefixes and units with unbounded symbolic exponents the real __getnewargs_ex__ fed to the "
+      "real __new__ (table model with symbolic membership) returns the object itself on the present path and "
+      "registers exactly the object's own intern key on the absent path, and the real __json__ -> "
+      "__from_json__ reproduces the intern key. The transports themselves (pickle, pickle protocol 2, copy, "
+      "deepcopy, json codecs, codecs_installed) are exercised concretely on EVERY registered dimension, prefix "
+      "and unit plus a compound family and int/float/Decimal quantities, checking identity, unchanged "
+      "names/symbols, magnitude type and (for JSON quantities) physical equality.",
+      "pickle/copy/json are stdlib C code taken by contract (validated concretely on every run); JSON "
+      "quantities are compared physically within 1e-9 when the unit text deliberately reads back as an equal "
+      "named unit (kg); pydantic/SQLAlchemy internals outside.",
+      "symbolic execution of newargs/JSON re-entry on shadow instances + exhaustive concrete transports",
+      "DESIGN.md 4/C15", "internmodel")
